@@ -20,10 +20,10 @@ theorem qc_sub_fragments_is_source (orig : Fragment) (subs : List Fragment) :
     obtain ⟨ac, oc, pg⟩ := s
     simp only [h, ImpSmall.ok_bind, ImpSmall.ite_ok_bind]
     rfl
-  obtain ⟨h1, h2, h3⟩ := ImpSmall.foldl_qcStep (ImpSmall.consPairs (stableSort lexLe subs)) (0, 0, [])
+  obtain ⟨h1, h2, h3⟩ := ImpSmall.qc_loop_counts subs
   generalize List.foldl _ _ (ImpSmall.consPairs (stableSort lexLe subs)) = S at h1 h2 h3 ⊢
   obtain ⟨ac, oc, pg⟩ := S
-  simp only [Int.zero_add, List.length_nil, Nat.zero_add] at h1 h2 h3
+  dsimp only at h1 h2 h3
   simp only [ImpSmall.ok_bind, ImpSmall.ite_ok_bind]
   -- `for frag_a, frag_b, g in pairs_with_gaps: msg += …`
   rw [ImpSmall.forIn_pure (fun _ _ => true)]
@@ -33,18 +33,37 @@ theorem qc_sub_fragments_is_source (orig : Fragment) (subs : List Fragment) :
   rw [ImpSmall.foldl_const_true]
   -- the four conditions under which `msg` is non-empty are the four conjuncts of `qcPasses`
   have hE : pg.isEmpty = (pg.length == 0) := by cases pg <;> rfl
-  unfold qcPasses
-  rw [hE, h3, h1, h2]
-  unfold ImpSmall.consPairs PyRt.sum
-  dsimp only
-  generalize (List.filter (fun (p : Fragment × Fragment) => p.fst.abuts p.snd) _).length = A
-  generalize (List.filter (fun (p : Fragment × Fragment) => p.fst.overlaps p.snd) _).length = O
-  generalize (List.filter (fun (p : Fragment × Fragment) => match p.fst.gapBetween p.snd with
-    | some g => decide (g ≠ 0) | none => false) _).length = G
+  rw [ImpSmall.qcPasses_eq, hE, h3, h1, h2]
+  unfold PyRt.sum
+  generalize ImpSmall.abutCount subs = A
+  generalize ImpSmall.overCount subs = O
+  generalize ImpSmall.gapCount subs = G
   have hT : List.map (fun (f : Fragment) => f.length) subs = List.map Fragment.length subs := rfl
   rw [hT]
   generalize sumInts (List.map Fragment.length subs) = T
   by_cases c1 : orig.length = T <;> by_cases c2 : O = 0 <;> by_cases c3 : (A : Int) = (subs.length : Int) - 1 <;>
     by_cases c4 : G = 0 <;> simp [c1, c2, c3, c4]
+
+/-- the generated function runs: three abutting pieces of `c:1-30`, given out of order, pass … -/
+example :
+    Gen.Imp.BuildAssembly_qc_sub_fragments
+      [{ name := ['c'], start := 11, stop := 20, strand := 1 }, { name := ['c'], start := 1, stop := 10, strand := 1 },
+       { name := ['c'], start := 21, stop := 30, strand := -1 }]
+      { name := ['c'], start := 1, stop := 30, strand := 1 } = .ok () := by rfl
+
+/-- … a lost base (gap between the pieces), an overlap, a single piece that is too short and no pieces at all raise ValueError -/
+example :
+    Gen.Imp.BuildAssembly_qc_sub_fragments
+      [{ name := ['c'], start := 1, stop := 10, strand := 1 }, { name := ['c'], start := 12, stop := 30, strand := 1 }]
+      { name := ['c'], start := 1, stop := 30, strand := 1 } = .error .value := by rfl
+example :
+    Gen.Imp.BuildAssembly_qc_sub_fragments
+      [{ name := ['c'], start := 1, stop := 10, strand := 1 }, { name := ['c'], start := 10, stop := 29, strand := 1 }]
+      { name := ['c'], start := 1, stop := 30, strand := 1 } = .error .value := by rfl
+example :
+    Gen.Imp.BuildAssembly_qc_sub_fragments [{ name := ['c'], start := 1, stop := 10, strand := 1 }]
+      { name := ['c'], start := 1, stop := 30, strand := 1 } = .error .value := by rfl
+example :
+    Gen.Imp.BuildAssembly_qc_sub_fragments [] { name := ['c'], start := 1, stop := 30, strand := 1 } = .error .value := by rfl
 
 end AgpTpf.C01
